@@ -40,11 +40,11 @@ Value& RTRIMExpression::value(Context & ctx) const
     if (val.lvalue())
       return ctx.allocate(Value(Value::type_literal));
     val.swap(Value(Value::type_literal));
-    return val;
+    return handback(ctx, val);
   case Type::LITERAL:
   {
     if (val.isNull())
-      return val;
+      return handback(ctx, val);
     int64_t a;
     Literal * rv = val.literal();
     a = rv->size() - 1;
@@ -54,12 +54,12 @@ Value& RTRIMExpression::value(Context & ctx) const
       if (val.lvalue())
         return ctx.allocate(Value(new Literal(rv->substr(0, a + 1))));
       val.literal()->assign(rv->substr(0, a + 1));
-      return val;
+      return handback(ctx, val);
     }
     if (val.lvalue())
       return ctx.allocate(Value(new Literal()));
     val.literal()->clear();
-    return val;
+    return handback(ctx, val);
   }
   default:
     throw RuntimeError(EXC_RT_FUNC_ARG_TYPE_S, KEYWORDS[oper]);
